@@ -159,6 +159,8 @@ def bf3_spec(rng, max_comps=5, p_enc=0.0, max_len=600, oversize_ok=False):
     comps = [component_spec(rng, enc=(rng.random() < p_enc), max_len=max_len,
                             oversize_ok=oversize_ok) for _ in range(ncomp)]
     spec = {"comments": comments_spec(rng), "components": comps}
+    if rng.random() < 0.15:
+        spec["container"] = rng.choice(["tuple", "generator"])
     r = rng.random()
     if r < 0.03 and comps:
         spec["alias_first"] = True
@@ -178,7 +180,10 @@ def build_bf3(spec, env):
                                               encrypt_by_session_key=c["enc"]))
     if spec.get("alias_first") and comps:
         comps.append(comps[0])          # the very same component object listed a second time
-    obj = env.bf3file.Bf3File({k: v for k, v in spec["comments"]}, comps)
+    # legal argument kinds: the constructor takes any iterable of components
+    kind = spec.get("container", "list")
+    carg = {"list": comps, "tuple": tuple(comps), "generator": (c for c in comps)}[kind]
+    obj = env.bf3file.Bf3File({k: v for k, v in spec["comments"]}, carg)
     if spec.get("config") is not None:
         obj.set_config(config_dict(spec["config"]), [bytes.fromhex(x) for x in spec.get("extra", [])])
     return obj
